@@ -11,6 +11,7 @@ insertion / iteration order of ``src``) or UNKNOWN.
 from __future__ import annotations
 
 from ..core.terms import (c, evaluate, fn_name, kw, make_inliner, n, pretty, subterms)
+from .c07 import kernel_sequence_obligations
 from .common import LIB_FACTS, is_call, method, short
 
 CANON, SORTED, UNKNOWN = ("CANON",), ("SORTED",), ("UNKNOWN",)
@@ -84,6 +85,54 @@ def order_of(t, depth=0):
     if tag == "a" and t[2] in ("size", "shape", "T"):
         return order_of(t[1], depth + 1)
     return UNKNOWN
+
+
+TRANSPOSERS = {"transpose", "swapaxes", "moveaxis", "rollaxis", "permute_dims", "matrix_transpose"}
+FLATTENERS = {"reshape", "ravel", "flatten"}
+
+
+def _is_transposed(t):
+    """Terms inside ``t`` that permute array axes (x.T, x.mT, transpose(x), swapaxes...)."""
+    out = []
+    for x in subterms(t):
+        if x[0] == "a" and x[2] in ("T", "mT"):
+            out.append(x)
+        elif x[0] == "call":
+            nm = (fn_name(x[1]) or "").rsplit(".", 1)[-1]
+            if x[1][0] == "a" and x[1][2] in TRANSPOSERS:
+                nm = x[1][2]
+            if nm in TRANSPOSERS:
+                # moveaxis(x, 0, -1) keeps the relative order of the remaining axes
+                args = x[2][1:] if x[1][0] != "a" or x[1][2] not in TRANSPOSERS else x[2]
+                if nm == "moveaxis" and tuple(args) in ((c(0), c(-1)), (c(-1), c(0))):
+                    continue
+                out.append(x)
+            elif kw(x, "order") not in (None, c("C")):
+                out.append(x)
+    return out
+
+
+def layout_breaks(t):
+    """Flattening calls whose operand had its axes permuted first: the element order
+    inside a leaf is then not the row-major order of ravel_pytree."""
+    bad = []
+    for x in subterms(t):
+        if x[0] != "call":
+            continue
+        f = x[1]
+        nm = (fn_name(f) or "").rsplit(".", 1)[-1]
+        operand = None
+        if f[0] == "a" and f[2] in FLATTENERS:
+            operand = f[1]
+        elif nm in FLATTENERS and x[2]:
+            operand = x[2][0]
+        if operand is None:
+            continue
+        if kw(x, "order") not in (None, c("C")):
+            bad.append(x)
+        elif _is_transposed(operand):
+            bad.append(x)
+    return bad
 
 
 def seq_order(t, depth=0):
@@ -172,6 +221,12 @@ def check(ctx):
                        stmt=f"inverse_mass_matrix order {o[0]}",
                        facts={"order": list(o), "path": f"{ci.name}._tune_slow -> "
                                                         "tune_inv_mm_* -> _history_to_matrix"})
+                lb = layout_breaks(arm)
+                ctx.ob("C12.R1", ts, "no axis permutation precedes a reshape/ravel on the way "
+                                     "from the history to the stored matrix (row-major element "
+                                     "order inside each leaf, as in ravel_pytree)", not lb,
+                       unproven=True, detail="; ".join(short(x, 100) for x in lb[:2]),
+                       node=node, stmt="tuned matrix layout " + (pretty(lb[0])[:100] if lb else ""))
         # ---- R2: history restricted to own keys
         calls = [t for t, _, _ in res.calls if is_call(t, "liesel.goose.mm.tune_inv_mm_diag",
                                                        "liesel.goose.mm.tune_inv_mm_full")]
@@ -255,6 +310,16 @@ def check(ctx):
     ctx.ob("C12.R1", h2m, "_history_to_matrix lays the history out in pytree flatten order",
            o in (CANON, SORTED), unproven=o == UNKNOWN,
            detail=f"order {o}: {short(r or ())}", stmt=f"history matrix order {o[0]}")
+
+    lb = layout_breaks(r) if r is not None else []
+    ctx.ob("C12.R1", h2m, "inside a leaf the history matrix keeps the row-major element "
+                          "order of ravel_pytree (no axis permutation before a "
+                          "reshape/ravel)", not lb, unproven=True,
+           detail="; ".join(short(x, 100) for x in lb[:2]), stmt="leaf layout " + (
+               pretty(lb[0])[:100] if lb else ""))
+
+    # ------------------------------------------------------------- R3 sequence
+    kernel_sequence_obligations(ctx, "C12.R3", ("tune",))
 
     # ------------------------------------------------------------- R3 engine
     eng = repo.cls("liesel.goose.engine.Engine")
